@@ -652,6 +652,8 @@ def arch_specs(tier):
           ["CriticSALE"], ["SALE"], ["DeterministicSALEPolicy"], ["ModelBasedEncoderPolicy"], ["MTMLPQNetwork"], ["TinyPolicy", 1], ["TinyPolicy", 3]]
     for ne, shared in itertools.product([1, 2] if quick else [1, 2, 3], [True, False]):
         s.append(["GaussianMLPEnsemble", ne, shared])
+    # more than ten layers: the integer-indexed containers get two-digit indices (hidden_layers[10] sorts before [2] as text)
+    s += [["MLP", 2, 1, [2] * 11, "tanh"], ["MLP", 1, 2, [1, 2] * 6, "tanh"], ["LayerNormMLP", 2, 1, [2] * 11]]
     return s
 
 
